@@ -5,11 +5,14 @@ import (
 	"context"
 	"encoding/json"
 	"fmt"
+	"github.com/fullstorydev/emulators/storage/gcsutil"
 	"io"
 	"math/rand"
 	"net/http"
+	"net/url"
 	"os"
 	"os/exec"
+	"strconv"
 	"strings"
 	"sync"
 	"time"
@@ -582,6 +585,11 @@ func gcsPerturbations() []gcsPert {
 	add("resume/huge-total", "PUT", "/upload/storage/v1/b/keep/o?upload_id={ID}", map[string]string{"Content-Range": "bytes 0-0/9223372036854775807"}, "x", true)
 	add("resume/huge-total-query", "PUT", "/upload/storage/v1/b/keep/o?upload_id={ID}", map[string]string{"Content-Range": "bytes */9223372036854775807"}, "", true)
 	add("resume/total-overflow", "PUT", "/upload/storage/v1/b/keep/o?upload_id={ID}", map[string]string{"Content-Range": "bytes 0-0/99999999999999999999"}, "x", true)
+	// page tokens that do not belong to the listing they are sent with
+	add("list/token-shorter-than-prefix", "GET", "/storage/v1/b/keep/o?prefix=dir/sub/&delimiter=/&pageToken="+url.QueryEscape(gcsutil.EncodePageToken("a")), nil, "", true)
+	add("list/token-outside-prefix", "GET", "/storage/v1/b/keep/o?prefix=dir/&delimiter=/&pageToken="+url.QueryEscape(gcsutil.EncodePageToken("zzz")), nil, "", true)
+	add("list/token-is-the-prefix", "GET", "/storage/v1/b/keep/o?prefix=dir/&delimiter=/&pageToken="+url.QueryEscape(gcsutil.EncodePageToken("dir/")), nil, "", true)
+	add("list/token-empty-name", "GET", "/storage/v1/b/keep/o?prefix=d&pageToken="+url.QueryEscape(gcsutil.EncodePageToken("")), nil, "", true)
 	add("resume/gap", "PUT", "/upload/storage/v1/b/keep/o?upload_id={ID}", map[string]string{"Content-Range": "bytes 50-50/100"}, "x", true)
 	add("resume/inverted-range", "PUT", "/upload/storage/v1/b/keep/o?upload_id={ID}", map[string]string{"Content-Range": "bytes 5-3/10"}, "", true)
 	add("compose/bad-json", "POST", "/storage/v1/b/keep/o/dst/compose", jsn, `{`, true)
@@ -980,7 +988,7 @@ func init() {
 var racePairSet = [][3]string{
 	{"bt", "ModifyFamilies", "GetTable"}, {"bt", "CreateTable", "GetTable"}, {"bt", "CreateTable", "GenerateToken"}, {"bt", "DeleteTable", "CheckConsistency"},
 	{"bt", "CreateTable", "ListTables"}, {"bt", "DeleteTable", "ReadRows"}, {"bt", "ModifyFamilies", "MutateRow"}, {"bt", "ModifyFamilies", "ReadRows"},
-	{"bt", "DropRowRange", "ReadRows"}, {"bt", "MutateRow", "SampleRowKeys"}, {"bt", "GcPass", "MutateRow"}, {"bt", "CreateTable", "MutateRow"},
+	{"bt", "DropRowRange", "ReadRows"}, {"bt", "DeleteTable", "ModifyFamilies"}, {"bt", "MutateRow", "SampleRowKeys"}, {"bt", "GcPass", "MutateRow"}, {"bt", "CreateTable", "MutateRow"},
 	{"gcs", "CreateBucket", "Upload"}, {"gcs", "DeleteBucket", "List"}, {"gcs", "Delete", "List"}, {"gcs", "Patch", "GetMeta"}, {"gcs", "Patch", "Patch"},
 	{"gcs", "Upload", "GetMedia"}, {"gcs", "ResumableChunk", "ResumableChunk"}, {"gcs", "Compose", "Delete"}, {"gcs", "Copy", "Patch"}, {"gcs", "DeleteBucket", "Upload"},
 }
@@ -1074,12 +1082,19 @@ func (c *Ctx) racePairs(pairs map[string][][2]string) {
 }
 
 func runRacePair(pair [3]string, engine, secs string) (string, int) {
-	cmd := exec.Command(verifRoot+"/bin/verif-race", "race", pair[0], pair[1], pair[2], secs, engine)
+	// the requests are issued for `secs` seconds; a run that is still going a minute later is wedged (deadlock)
+	dur, _ := strconv.ParseFloat(secs, 64)
+	ctx, cancel := context.WithTimeout(context.Background(), time.Duration(dur*float64(time.Second))+60*time.Second)
+	defer cancel()
+	cmd := exec.CommandContext(ctx, verifRoot+"/bin/verif-race", "race", pair[0], pair[1], pair[2], secs, engine)
 	cmd.Env = append(os.Environ(), "GORACE=halt_on_error=0 exitcode=0")
 	var buf bytes.Buffer
 	cmd.Stdout, cmd.Stderr = &buf, &buf
 	err := cmd.Run()
 	code := 0
+	if ctx.Err() != nil {
+		return buf.String() + "\nHANG: the requests did not all return within a minute after the run's end", -2
+	}
 	if ee, ok := err.(*exec.ExitError); ok {
 		code = ee.ExitCode()
 	} else if err != nil {
@@ -1094,6 +1109,8 @@ func raceVerdict(out string, code int) (bad, excerpt string) {
 		bad = "fatal runtime error"
 	case strings.Contains(out, "WARNING: DATA RACE"):
 		bad = "data race"
+	case strings.Contains(out, "HANG:"):
+		bad = "requests never returned (deadlock)"
 	case strings.Contains(out, "panic:"):
 		bad = "panic"
 	case code != 0:
